@@ -251,7 +251,7 @@ func (s *Session) setStorageCallbacks() {
 	})
 
 	s.Router.HandleIncoming(simplefixgo.AllMsgTypes, func(msg []byte) bool {
-		if s.state != WaitingLogonAnswer && s.state != WaitingLogon {
+		if state := s.currentState(); state != WaitingLogonAnswer && state != WaitingLogon {
 			seqNum, err := fix.ValueByTag(msg, strconv.Itoa(s.Tags.MsgSeqNum))
 			if err != nil {
 				return true
@@ -404,7 +404,7 @@ func (s *Session) Run() (err error) {
 			return true
 		}
 
-		switch s.state {
+		switch s.currentState() {
 		case WaitingLogon:
 			s.LogonSettings = &LogonSettings{
 				HeartBtInt:      incomingLogon.HeartBtInt(),
@@ -466,7 +466,7 @@ func (s *Session) Run() (err error) {
 			return true
 		}
 
-		switch s.state {
+		switch s.currentState() {
 		case WaitingLogoutAnswer:
 			s.changeState(ReceivedLogoutAnswer, true)
 			s.changeState(WaitingLogon, true)
@@ -501,7 +501,7 @@ func (s *Session) Run() (err error) {
 			return true
 		}
 
-		if s.state == WaitingTestReqAnswer {
+		if s.currentState() == WaitingTestReqAnswer {
 			// reset SuccessfulLogged statue without event trigger
 			s.changeState(SuccessfulLogged, false)
 		}
@@ -569,7 +569,7 @@ func (s *Session) start() error {
 
 	s.Router.HandleIncoming(simplefixgo.AllMsgTypes, func(msg []byte) bool {
 		incomingMsgTimer.Refresh()
-		if s.state == WaitingTestReqAnswer {
+		if s.currentState() == WaitingTestReqAnswer {
 			s.changeState(SuccessfulLogged, false)
 		}
 
@@ -592,7 +592,7 @@ func (s *Session) start() error {
 			default:
 			}
 
-			if s.state == WaitingTestReqAnswer {
+			if s.currentState() == WaitingTestReqAnswer {
 				s.changeState(Disconnect, true)
 				return
 			}
@@ -686,6 +686,13 @@ func (s *Session) send(msg messages.Message) error {
 
 func (s *Session) sendWithErrorCheck(msg messages.Message) {
 	s.HandlerError(s.send(msg))
+}
+
+func (s *Session) currentState() LogonState {
+	s.stateMu.RLock()
+	defer s.stateMu.RUnlock()
+
+	return s.state
 }
 
 func (s *Session) IsLogged() bool {
